@@ -156,7 +156,8 @@ var Int = NewScalar(ScalarConfig{
 	ParseLiteral: func(valueAST ast.Value) interface{} {
 		switch valueAST := valueAST.(type) {
 		case *ast.IntValue:
-			if intValue, err := strconv.Atoi(valueAST.Value); err == nil {
+			// Int is a signed 32-bit integer, for literals as for variables.
+			if intValue, err := strconv.Atoi(valueAST.Value); err == nil && intValue >= math.MinInt32 && intValue <= math.MaxInt32 {
 				return intValue
 			}
 		}
